@@ -7,6 +7,7 @@ import (
 	"strings"
 	"testing"
 
+	"github.com/veraison/eat"
 	"github.com/veraison/psatoken"
 	"pgregory.net/rapid"
 )
@@ -255,6 +256,15 @@ func TestC13_ClaimErrors(t *testing.T) {
 			if err != nil {
 				t.Fatalf("VERIF-INFRA: %v", err)
 			}
+			if profileNormalisesToCanon(m) {
+				// e.g. "HTTP://arm.com/psa/2.0.0": not the registered name (the
+				// dispatching decoders reject it, see C07), but when such a
+				// token is unmarshalled straight into a P2Claims the profile
+				// getter compares URL-normalised forms and RFC 3986 calls the
+				// two URIs equivalent: no verdict on which class applies
+				st.Case("", "no-verdict:profile-uri-normalisation")
+				return
+			}
 			type cu interface{ UnmarshalCBOR([]byte) error }
 			if err := c.(cu).UnmarshalCBOR(m.WireBytes()); err != nil {
 				st.Case("", "undecodable")
@@ -423,6 +433,246 @@ func TestC13_FilterError(t *testing.T) {
 		st.Case(key, cls...)
 		if key != "" && st.WantSample() {
 			st.Sample(map[string]any{"tree": desc, "filtered": wantNil})
+		}
+	})
+}
+
+// profileNormalisesToCanon: a profile-2 name that differs from the canonical
+// one only by what URL parsing normalises away (scheme case, empty fragment).
+func profileNormalisesToCanon(m *MClaims) bool {
+	if m.Prof != P2 || m.Profile == nil || *m.Profile == m.CanonName() {
+		return false
+	}
+	p, err := eat.NewProfile(*m.Profile)
+	if err != nil {
+		return false
+	}
+	s, err := p.Get()
+	return err == nil && s == m.CanonName()
+}
+
+// ---- validation ignores exactly the filtered classes, for ANY implementation ----
+
+// overrideClaims is a claims implementation of a hypothetical derived profile:
+// it answers some of the ten standard getters with a given error (a claim the
+// profile makes optional, or does not have) and delegates the rest.
+type overrideClaims struct {
+	psatoken.IClaims
+	errs map[Claim]error
+}
+
+func (o *overrideClaims) Validate() error { return psatoken.ValidateClaims(o) }
+func (o *overrideClaims) GetProfile() (string, error) {
+	if e, ok := o.errs[CProfile]; ok {
+		return "", e
+	}
+	return o.IClaims.GetProfile()
+}
+func (o *overrideClaims) GetClientID() (int32, error) {
+	if e, ok := o.errs[CClientID]; ok {
+		return 0, e
+	}
+	return o.IClaims.GetClientID()
+}
+func (o *overrideClaims) GetSecurityLifeCycle() (uint16, error) {
+	if e, ok := o.errs[CLifecycle]; ok {
+		return 0, e
+	}
+	return o.IClaims.GetSecurityLifeCycle()
+}
+func (o *overrideClaims) GetImplID() ([]byte, error) {
+	if e, ok := o.errs[CImplID]; ok {
+		return nil, e
+	}
+	return o.IClaims.GetImplID()
+}
+func (o *overrideClaims) GetBootSeed() ([]byte, error) {
+	if e, ok := o.errs[CBootSeed]; ok {
+		return nil, e
+	}
+	return o.IClaims.GetBootSeed()
+}
+func (o *overrideClaims) GetCertificationReference() (string, error) {
+	if e, ok := o.errs[CCertRef]; ok {
+		return "", e
+	}
+	return o.IClaims.GetCertificationReference()
+}
+func (o *overrideClaims) GetSoftwareComponents() ([]psatoken.ISwComponent, error) {
+	if e, ok := o.errs[CSwComps]; ok {
+		return nil, e
+	}
+	return o.IClaims.GetSoftwareComponents()
+}
+func (o *overrideClaims) GetNonce() ([]byte, error) {
+	if e, ok := o.errs[CNonce]; ok {
+		return nil, e
+	}
+	return o.IClaims.GetNonce()
+}
+func (o *overrideClaims) GetInstID() ([]byte, error) {
+	if e, ok := o.errs[CInstID]; ok {
+		return nil, e
+	}
+	return o.IClaims.GetInstID()
+}
+func (o *overrideClaims) GetVSI() (string, error) {
+	if e, ok := o.errs[CVSI]; ok {
+		return "", e
+	}
+	return o.IClaims.GetVSI()
+}
+
+// overrideComp does the same for the software component fields.
+type overrideComp struct {
+	psatoken.ISwComponent
+	errs map[int]error
+}
+
+func (o *overrideComp) Validate() error { return psatoken.ValidateSwComponent(o) }
+func (o *overrideComp) GetMeasurementType() (string, error) {
+	if e, ok := o.errs[1]; ok {
+		return "", e
+	}
+	return o.ISwComponent.GetMeasurementType()
+}
+func (o *overrideComp) GetMeasurementValue() ([]byte, error) {
+	if e, ok := o.errs[2]; ok {
+		return nil, e
+	}
+	return o.ISwComponent.GetMeasurementValue()
+}
+func (o *overrideComp) GetVersion() (string, error) {
+	if e, ok := o.errs[4]; ok {
+		return "", e
+	}
+	return o.ISwComponent.GetVersion()
+}
+func (o *overrideComp) GetSignerID() ([]byte, error) {
+	if e, ok := o.errs[5]; ok {
+		return nil, e
+	}
+	return o.ISwComponent.GetSignerID()
+}
+func (o *overrideComp) GetMeasurementDesc() (string, error) {
+	if e, ok := o.errs[6]; ok {
+		return "", e
+	}
+	return o.ISwComponent.GetMeasurementDesc()
+}
+
+func TestC13_ValidationFilters(t *testing.T) {
+	st := NewStats("C13", "TestC13_ValidationFilters", "rapid: a claims implementation of a hypothetical derived profile (delegating to a valid built-in claims-set) answers 1..3 of the ten standard getters with an arbitrarily wrapped error (the error-tree generator of TestC13_FilterError: sentinels, derived errors, look-alikes, %w / %v / Join / custom Unwrap / custom Is / opaque wrappers); the exported ValidateClaims (and ValidateSwComponent for a component implementation built the same way, and Evidence.SetClaims) must succeed iff every injected error reaches the missing-optional or not-in-profile class, and otherwise return an error from which the first offending injected error is still reachable with errors.Is. Non-trivial = at least one injected error has a wrapping layer; distinct = claims + tree shapes")
+	st.Require = []string{"all-ignorable", "some-kept", "component", "claims"}
+	defer st.Flush(t)
+	rapid.Check(t, func(t *rapid.T) {
+		p := drawProf(t)
+		m := GenValid(t, p, true)
+		if p == P1 {
+			m.Profile = sp(P1Name)
+		}
+		if len(m.Comps) == 0 {
+			m.NoMeas = nil
+			m.Comps = drawValidComps(t, "sw")
+		}
+		base, err := m.BuildSetters()
+		if err != nil {
+			t.Fatalf("VERIF-INFRA: %v", err)
+		}
+		component := rapid.IntRange(0, 3).Draw(t, "component") == 0
+		n := rapid.IntRange(1, 3).Draw(t, "ninject")
+		allIgnorable := true
+		var descs []string
+		maxDepth := 0
+		var kept []error
+		if component {
+			scs, _ := base.GetSoftwareComponents()
+			oc := &overrideComp{ISwComponent: scs[0], errs: map[int]error{}}
+			for i := 0; i < n; i++ {
+				f := rapid.SampledFrom([]int{1, 2, 4, 5, 6}).Draw(t, "field")
+				if _, dup := oc.errs[f]; dup {
+					continue
+				}
+				e, reach, desc, d := drawErrTree(t, 0)
+				oc.errs[f] = e
+				descs = append(descs, fmt.Sprintf("field%d:%s", f, desc))
+				if d > maxDepth {
+					maxDepth = d
+				}
+				if !(reach[psatoken.ErrMissingOptional] || reach[psatoken.ErrNotInProfile]) {
+					allIgnorable = false
+					kept = append(kept, e)
+				}
+			}
+			got := psatoken.ValidateSwComponent(oc)
+			if (got == nil) != allIgnorable {
+				t.Fatalf("C13 violated: ValidateSwComponent = %v for a component whose getters fail with %v (ignorable: %v)", got, descs, allIgnorable)
+			}
+			if got != nil {
+				ok := false
+				for _, e := range kept {
+					if errors.Is(got, e) {
+						ok = true
+					}
+				}
+				if !ok {
+					t.Fatalf("C13 violated: ValidateSwComponent returned %q from which none of the offending getter errors %v is reachable", got, descs)
+				}
+			}
+		} else {
+			oc := &overrideClaims{IClaims: base, errs: map[Claim]error{}}
+			for i := 0; i < n; i++ {
+				c := Claim(rapid.IntRange(0, int(nClaims)-1).Draw(t, "claim"))
+				if _, dup := oc.errs[c]; dup {
+					continue
+				}
+				e, reach, desc, d := drawErrTree(t, 0)
+				oc.errs[c] = e
+				descs = append(descs, fmt.Sprintf("%s:%s", c, desc))
+				if d > maxDepth {
+					maxDepth = d
+				}
+				if !(reach[psatoken.ErrMissingOptional] || reach[psatoken.ErrNotInProfile]) {
+					allIgnorable = false
+					kept = append(kept, e)
+				}
+			}
+			got := psatoken.ValidateClaims(oc)
+			if (got == nil) != allIgnorable {
+				t.Fatalf("C13 violated: ValidateClaims = %v for a claims implementation whose getters fail with %v (ignorable: %v)", got, descs, allIgnorable)
+			}
+			if got != nil {
+				ok := false
+				for _, e := range kept {
+					if errors.Is(got, e) {
+						ok = true
+					}
+				}
+				if !ok {
+					t.Fatalf("C13 violated: ValidateClaims returned %q from which none of the offending getter errors %v is reachable", got, descs)
+				}
+			}
+			ev := &psatoken.Evidence{}
+			if serr := ev.SetClaims(oc); (serr == nil) != allIgnorable {
+				t.Fatalf("C13 violated: Evidence.SetClaims = %v for getters failing with %v (ignorable: %v)", serr, descs, allIgnorable)
+			}
+		}
+		cls := []string{"claims"}
+		if component {
+			cls = []string{"component"}
+		}
+		if allIgnorable {
+			cls = append(cls, "all-ignorable")
+		} else {
+			cls = append(cls, "some-kept")
+		}
+		key := ""
+		if maxDepth >= 1 {
+			key = strings.Join(descs, ";")
+		}
+		st.Case(key, cls...)
+		if key != "" && st.WantSample() {
+			st.Sample(map[string]any{"injected": descs, "validation_must_succeed": allIgnorable})
 		}
 	})
 }
